@@ -188,9 +188,14 @@ def gen_take(rng, g, lo, hi, f):
         dur_units = (e_ - s_) / pd.Timedelta(1, g['unit'])
         if dur_units <= 0:
             continue
+        oblig = rng.random() < 0.3       # an obligation (take-or-pay: at least V bought / at least V sold) instead of a cap
         if hi > 0:
+            if oblig and lo >= 0:
+                return 'min_take', {'start': [str(s)], 'end': [str(e)], 'values': [r2(hi * dur_units * rng.uniform(0.1, 0.5))]}
             return 'max_take', {'start': [str(s)], 'end': [str(e)], 'values': [r2(hi * dur_units * rng.uniform(0.15, 0.7))]}
         if lo < 0:
+            if oblig:
+                return 'max_take', {'start': [str(s)], 'end': [str(e)], 'values': [r2(lo * dur_units * rng.uniform(0.1, 0.5))]}
             return 'min_take', {'start': [str(s)], 'end': [str(e)], 'values': [r2(lo * dur_units * rng.uniform(0.15, 0.7))]}
         return None, None
     return None, None
@@ -366,8 +371,9 @@ def gen_plant(rng, g, name, nodes, f, price_key, chp=False, simple=False, fuel=T
             a['start_ramp_lower_bounds'] = lows
             a['start_ramp_upper_bounds'] = [r2(v * pick(rng, [1., 1.2])) for v in lows]
             if rng.random() < 0.5:
-                a['shutdown_ramp_lower_bounds'] = lows[:1]
-                a['shutdown_ramp_upper_bounds'] = [r2(lows[0] * 1.1)]
+                kd = int(rng.integers(1, k + 1))
+                a['shutdown_ramp_lower_bounds'] = lows[:kd]
+                a['shutdown_ramp_upper_bounds'] = [r2(v * 1.1) for v in lows[:kd]]
             # one profile value per grid step unless the main unit is finer than the step (then EAO averages the profile); a profile given in a unit
             # coarser than the step would be longer than the short horizons used here
             if pd.Timedelta(to_offset(g['unit'])) > pd.Timedelta(to_offset(g['freq'])) or rng.random() < 0.5:
